@@ -40,6 +40,8 @@ PROGRAMS = [
   ('mix_duckdb', '@Engine("duckdb");\nA(3, 2, [1, 2]);\nT(Greatest(x, y), Least(x, y), Log(x), ToString(x), Size(l), Element(l, 0), ToInt64("1"), Abs(x - y), Sqrt(x), Floor(x / y), Exp(y)) :- A(x, y, l);\nS(x, c? Count= y, m? Max= y, g? List= y) distinct :- A(x, y, l);\n', ['T', 'S'], None),
   ('mix_trino', '@Engine("trino");\nA(3, 2, [1, 2]);\nT(Greatest(x, y), Least(x, y), Log(x), ToString(x), Size(l), Element(l, 0), ToInt64("1"), Abs(x - y), Sqrt(x), Floor(x / y), Exp(y)) :- A(x, y, l);\nS(x, c? Count= y, m? Max= y, g? List= y) distinct :- A(x, y, l);\n', ['T', 'S'], None),
   ('mix_clickhouse', '@Engine("clickhouse");\nA(3, 2, [1, 2]);\nT(Greatest(x, y), Least(x, y), Log(x), ToString(x), Size(l), Element(l, 0), ToInt64("1"), Abs(x - y), Sqrt(x), Floor(x / y), Exp(y)) :- A(x, y, l);\nS(x, c? Count= y, m? Max= y, g? List= y) distinct :- A(x, y, l);\n', ['T', 'S'], None),
+  ('bigquery_udfs', '@Engine("bigquery");\nA(1); A(2);\nFa(x) --> x + 1;\nGb(x) --> x * 2;\nHc(x) --> Fa(x) - Gb(x);\nKd(x) --> x / 2;\nT(Fa(x), Gb(x), Hc(x), Kd(x)) :- A(x);\n', ['T'], None),
+  ('psql_udfs', '@Engine("psql");\nA(1); A(2);\nFa(x) --> x + 1;\nGb(x) --> x * 2;\nHc(x) --> Fa(x) - Gb(x);\nT(Fa(x), Gb(x), Hc(x)) :- A(x);\n', ['T'], None),
   ('flags', '@Engine("sqlite");\n@DefineFlag("who", "world");\n@DefineFlag("greeting", "hello ${who}");\nT(FlagValue("greeting"), "${who}!");\n', ['T'], None),
   ('incantation', '@Engine("sqlite");\n# ' + INCANT + '\nF(x) = x + 1;\nT(y) :- y == 2 * F(1);\n', ['T'], None),
   ('fun_sensitive', '@Engine("sqlite");\nF(x) = x + 1;\nT(y) :- y == 2*F(1);\nU(x ---y) :- x == 1, y == 2 | x == 2, y == 1;\n', ['T', 'U'], None),
@@ -170,7 +172,7 @@ def run_op(op):
   raise ValueError(op)
 
 
-QUICK_SKIP = {'mix_trino', 'mix_clickhouse', 'rec_flat', 'bigquery', 'duckdb_rec', 'ground'}
+QUICK_SKIP = {'psql_udfs', 'mix_trino', 'mix_clickhouse', 'rec_flat', 'bigquery', 'duckdb_rec', 'ground'}
 _QUICK = [False]
 
 
